@@ -125,12 +125,22 @@ def SetGroups(addr, groups):
         for i in existing - groups:
             yield RemoveFromGroup(addr, i)
     else:
-        # Can't read from multiple devices: must write every group
+        # Can't read from multiple devices: must write every group.
+        # If the gear are addressed through a group they are about to
+        # leave, leave that group last: they stop listening to the
+        # address as soon as they have been removed from it.
+        last = getattr(addr, "group", None)
+        if last in groups:
+            last = None
         for i in range(0, 16):
+            if i == last:
+                continue
             if i in groups:
                 yield AddToGroup(addr, i)
             else:
                 yield RemoveFromGroup(addr, i)
+        if last is not None:
+            yield RemoveFromGroup(addr, last)
 
 
 def _find_next(low, high):
